@@ -481,9 +481,10 @@ theorem import_rejects_bad_barrier (hfix : Gen.barrierChecked = true) (rest : Li
 
 /-- **Barrier inside a gate body (repaired importer)**: an operand that is not a formal qubit of the gate
 makes `_initialize_pass` refuse the definition. -/
-theorem import_rejects_body_barrier (hfix : Gen.barrierChecked = true) (defs : List GateDef) (qargs : List Str)
+theorem import_rejects_body_barrier (hfix : Gen.barrierChecked = true) (defs : List GateDef)
+    (params qargs : List Str)
     (body : List GOp) (qs : List Str) (hb : GOp.barrier qs ∈ body) (q : Str) (hq : q ∈ qs)
-    (hnq : qargs.contains q = false) : IsErr (bodyPass defs qargs body) := by
+    (hnq : qargs.contains q = false) : IsErr (bodyPass defs params qargs body) := by
   induction body with
   | nil => cases hb
   | cons g gs ih =>
@@ -499,13 +500,78 @@ theorem import_rejects_body_barrier (hfix : Gen.barrierChecked = true) (defs : L
         split
         · exact ⟨.value, rfl⟩
         · exact ⟨e, he⟩
-      | U a b c x => exact ⟨e, by simp [bodyPass, he, Except.map]⟩
-      | CX a b => exact ⟨e, by simp [bodyPass, he, Except.map]⟩
+      | U a b c x =>
+        simp only [bodyPass]
+        split
+        · exact ⟨_, rfl⟩
+        · exact ⟨e, by simp [he, Except.map]⟩
+      | CX a b =>
+        simp only [bodyPass]
+        split
+        · exact ⟨_, rfl⟩
+        · exact ⟨e, by simp [he, Except.map]⟩
       | call n ps xs =>
         simp only [bodyPass]
         split
-        · exact ⟨e, by simp [he, Except.map]⟩
+        · split
+          · exact ⟨_, rfl⟩
+          · exact ⟨e, by simp [he, Except.map]⟩
         · exact ⟨.syntax, rfl⟩
+
+/-- **Malformed statement in a gate body (repaired importer: `_check_body_call`)**: a definition one of whose
+body statements `n(ps) qs` fails the check — an operand that is not a formal qubit of the gate (also when it
+is only handed on to another user gate), a repeated operand, a wrong number of parameters or qubits for the
+called built-in / `qelib1.inc` / user gate, the power operator, an identifier that is neither `pi` nor a formal
+parameter (`bodyCheck … = some e`) — makes `_initialize_pass` refuse the definition, whether the gate is ever
+called or not.  (The original code looked at a body only when the gate was called, and never at an operand a
+called user gate ignores.) -/
+theorem import_rejects_body_statement (hfix : Gen.bodyChecked = true) (defs : List GateDef)
+    (params qargs : List Str) (body : List GOp) (n : Str) (ps : List Expr) (qs : List Str)
+    (hb : GOp.call n ps qs ∈ body) (e : Err) (hc : bodyCheck defs params qargs n ps qs = some e) :
+    IsErr (bodyPass defs params qargs body) := by
+  induction body with
+  | nil => cases hb
+  | cons g gs ih =>
+    rcases List.mem_cons.mp hb with rfl | hmem
+    · simp only [bodyPass, hfix, if_true, hc]
+      split
+      · exact ⟨_, rfl⟩
+      · exact ⟨_, rfl⟩
+    · obtain ⟨e', he'⟩ := ih hmem
+      cases g with
+      | barrier qs' =>
+        simp only [bodyPass]
+        split
+        · exact ⟨_, rfl⟩
+        · exact ⟨e', he'⟩
+      | U a b c x =>
+        simp only [bodyPass]
+        split
+        · exact ⟨_, rfl⟩
+        · exact ⟨e', by simp [he', Except.map]⟩
+      | CX a b =>
+        simp only [bodyPass]
+        split
+        · exact ⟨_, rfl⟩
+        · exact ⟨e', by simp [he', Except.map]⟩
+      | call n' ps' xs =>
+        simp only [bodyPass]
+        split
+        · split
+          · exact ⟨_, rfl⟩
+          · exact ⟨e', by simp [he', Except.map]⟩
+        · exact ⟨.syntax, rfl⟩
+
+/-- what `_check_body_call` refuses: an operand that is not a formal qubit; a repeated operand -/
+theorem body_check_operands (defs : List GateDef) (params qargs : List Str) (n : Str) (ps : List Expr)
+    (qs : List Str) :
+    ((∃ q ∈ qs, qargs.contains q = false) → bodyCheck defs params qargs n ps qs = some .value) ∧
+    (qs.all qargs.contains = true → strDup qs = true → bodyCheck defs params qargs n ps qs = some .value) := by
+  refine ⟨fun ⟨q, hq, hn⟩ => ?_, fun h1 h2 => ?_⟩
+  · have : qs.all qargs.contains = false := by
+      rw [List.all_eq_false]; exact ⟨q, hq, by rw [hn]; decide⟩
+    simp [bodyCheck, this]
+  · simp [bodyCheck, h1, h2]
 
 /-! concrete malformed programs, each refused by the model (and by the code: correspondence) -/
 
@@ -559,6 +625,36 @@ theorem import_empty_register_witnesses : Gen.emptyRegOk = true →
   first
     | exact fun h => absurd h (by decide)
     | exact fun _ => ⟨rfl, rfl, rfl, rfl⟩
+
+/-- gate bodies on the repaired tree, in definitions that are NEVER called: an operand handed on to a user gate
+that ignores it (`gate inner u,v { x u; } gate g a { inner a,nosuch; }`), a repeated qubit (`cx a,a;`), a wrong
+arity (`rx a;`), a foreign identifier (`rx(z) a;`), the power operator -/
+theorem import_body_witnesses : Gen.bodyChecked = true →
+    let inner : Stmt := .gate ⟨cs!"inner", [], [cs!"u", cs!"v"], [.call cs!"x" [] [cs!"u"]]⟩
+    importProgram (hdr ++ [inner, .gate ⟨cs!"g", [], [cs!"a"], [.call cs!"inner" [] [cs!"a", cs!"nosuch"]]⟩]) =
+      .error .value ∧
+    importProgram (hdr ++ [.gate ⟨cs!"g", [], [cs!"a"], [.call cs!"cx" [] [cs!"a", cs!"a"]]⟩]) = .error .value ∧
+    importProgram (hdr ++ [.gate ⟨cs!"g", [], [cs!"a"], [.call cs!"rx" [] [cs!"a"]]⟩]) = .error .value ∧
+    importProgram (hdr ++ [.gate ⟨cs!"g", [cs!"p"], [cs!"a"], [.call cs!"rx" [.id cs!"z"] [cs!"a"]]⟩]) =
+      .error .name ∧
+    importProgram (hdr ++ [.gate ⟨cs!"g", [cs!"p"], [cs!"a"],
+        [.call cs!"rx" [.pow (.lit cs!"2") (.id cs!"p")] [cs!"a"]]⟩]) = .error .notImpl := by
+  first
+    | exact fun h => absurd h (by decide)
+    | exact fun _ => ⟨rfl, rfl, rfl, rfl, rfl⟩
+
+/-- the same definitions on the ORIGINAL code: accepted (the gate is never called) — also when the gate with
+the undeclared operand IS called, because `inner` ignores its second qubit -/
+theorem body_unchecked_counterexample : Gen.bodyChecked = false →
+    let inner : Stmt := .gate ⟨cs!"inner", [], [cs!"u", cs!"v"], [.call cs!"x" [] [cs!"u"]]⟩
+    (∃ r, importProgram (hdr ++ [inner, .gate ⟨cs!"g", [], [cs!"a"], [.call cs!"inner" [] [cs!"a", cs!"nosuch"]]⟩,
+        .qop (.call cs!"g" [] [.idx cs!"q" 0])]) = .ok r) ∧
+    (∃ e, denote (hdr ++ [inner, .gate ⟨cs!"g", [], [cs!"a"], [.call cs!"inner" [] [cs!"a", cs!"nosuch"]]⟩,
+        .qop (.call cs!"g" [] [.idx cs!"q" 0])]) = .error e) ∧
+    (∃ r, importProgram (hdr ++ [.gate ⟨cs!"g", [], [cs!"a"], [.call cs!"rx" [] [cs!"a"]]⟩]) = .ok r) := by
+  first
+    | exact fun h => absurd h (by decide)
+    | exact fun _ => ⟨⟨_, rfl⟩, ⟨_, rfl⟩, ⟨_, rfl⟩⟩
 
 /-- parameters are substituted as whole identifiers: `gate g(x,xx) a { rx(xx) a; } g(1,2) q[0];`
 expands to `RX(2)` and `gate g(p) a { rx(pi*p) a; } g(3) q[0];` to `RX(pi*3)` -/
